@@ -360,9 +360,10 @@ class SimSocket(object):
         if not of.rx and not (of.peer_wr_closed or of.peer_gone or of.rd_shut or of.reset):
             if self._timeout == 0.0 or s is None:
                 raise _err(errno.EAGAIN)
-            ok = s.block(lambda: of.readable() or self._closed, self._deadline(), "sock.recv.wait", of.name)
+            # closing the descriptor from another thread does not wake a blocked recv (shutdown does: it changes the open file)
+            ok = s.block(lambda: of.readable(), self._deadline(), "sock.recv.wait", of.name)
             if self._closed:
-                raise _err(errno.EBADF)
+                raise _err(errno.EBADF)     # noticed only when the wait is over
             if not ok and not of.readable():
                 raise _real_socket.timeout("timed out")
         if of.rx and not of.rd_shut:
@@ -528,13 +529,16 @@ class SimPoll(object):
             fd = fd.fileno()
         del self.reg[fd]
 
-    def _scan(self):
+    def _scan(self, snapshot=None):
         k = kernel()
         out = []
         for fd, mode in sorted(self.reg.items()):
-            of = k.fds.get(fd)
+            # a poll that is already blocked holds on to the open files it started with: a descriptor closed meanwhile by
+            # another thread neither wakes it nor shows up as invalid (only a poll that STARTS on a closed number says "n")
+            of = k.fds.get(fd) if snapshot is None else snapshot.get(fd)
             if of is None:
-                out.append((fd, "n"))
+                if snapshot is None:
+                    out.append((fd, "n"))
                 continue
             mask = ""
             if "r" in mode and of.readable():
@@ -560,8 +564,9 @@ class SimPoll(object):
                 s.count_step()
             return []
         deadline = None if timeout is None else s.clock + timeout
-        s.block(lambda: bool(self._scan()), deadline, "poll.wait", tuple(sorted(self.reg)))
-        return self._scan()
+        snap = dict((fd, kernel().fds.get(fd)) for fd in self.reg)
+        s.block(lambda: bool(self._scan(snap)), deadline, "poll.wait", tuple(sorted(self.reg)))
+        return self._scan()        # what is reported on return is today's view (a number closed meanwhile reads "n")
 
 
 def install(modules=("stream", "server", "registry", "factory", "lib")):
